@@ -136,6 +136,10 @@ def process_chunk(cases):
             mo = per_case_model[ci].get(li)
             cmpname = (case.get('cmp') or {}).get(li)
             same = COMPARATORS[cmpname](io, mo) if cmpname else (canon(io) == canon(mo))
+            if io == 'crash:Exception' and mo == 'rej':
+                # Filtration.orderOf/indexOf/addedAtIndex document a bare Exception for a simplex that is not there:
+                # a rejection where the model rejects too (where the model answers, it stays a crash)
+                same = True
             if not same and first_diff is None:
                 first_diff = dict(line=li, op=l, impl=io, model=mo)
                 if io.startswith('crash:') and mo is not None and not mo.startswith('err') and mo != 'unmodelled':
